@@ -27,7 +27,9 @@ EXPLANATION = (
     "sequences: later verdicts, `assertions`, last_command / last_result, the backtrack points and the back-end's own "
     "stack are as when the refused call is never made (R6).  Printing services (serialize, str, to_smtlib in both "
     "forms): the printer's handler fails at every call in turn; the next texts, of another formula and of the same "
-    "one, are those of a fresh environment (R7).")
+    "one, are those of a fresh environment (R7).  Human-readable parser: after a rejected text (undeclared names, "
+    "truncated input) the same parser object reads later texts as a fresh one (R8).  Sort manager: ill-formed sort "
+    "requests are rejected twice and leave its tables unchanged (part of R2).")
 NOT_DECIDED = ["traces inherent to the design (symbols declared by a failing script stay declared; symbols a failed "
                "add_assertion had already declared in the solver process stay declared and show up in later models)",
                "failures injected elsewhere than at handler calls (e.g. inside the walker's own loop)",
@@ -128,6 +130,18 @@ def run(ctx):
             else:
                 rs.unrec("%s (%s): %s" % (name, how, detail[:160]))
         ctx.floor(rs, 16)
+
+    if ctx.want("R8"):
+        rs = ctx.rule("R8", "human-readable parser object: after a text it rejected (names not declared yet, truncated text) it reads later texts as a fresh parser does")
+        from . import text_deep as td
+        for tag, kind, detail in td.hr_failure_results(repo, ctx.tier):
+            if kind == "valid":
+                rs.ok({"case": tag, "result": detail})
+            elif kind == "invalid":
+                ctx.finding(rs, "hr-after-failure|%s" % tag, "%s: %s" % (tag, detail), "pysmt/parsing.py")
+            else:
+                rs.unrec("%s: %s" % (tag, detail[:160]))
+        ctx.floor(rs, 4)
 
     if ctx.want("R7"):
         rs = ctx.rule("R7", "printing services: after the printer failed at a handler call (every call in turn) the next texts are those of a fresh environment")
